@@ -1,6 +1,6 @@
 (* Properties/C17.v -- The vector path renders exactly the dark modules (the parts that are theorems). *)
 From Coq Require Import ZArith List Bool Sorted.
-From DM Require Import Model.Outcome Model.Path Spec.EvenOdd Proofs.PathProofs Proofs.PathMicro Proofs.PathGraph Proofs.PathAlgo Proofs.UnicodeProofs.
+From DM Require Import Model.Outcome Model.Path Spec.EvenOdd Proofs.PathProofs Proofs.PathMicro Proofs.PathGraph Proofs.PathAlgo Proofs.PathTotal Proofs.UnicodeProofs.
 Import ListNotations.
 Local Open Scope Z_scope.
 
@@ -53,8 +53,7 @@ Print Assumptions C17_pixels.
 (* (v) the algorithm itself, for EVERY bitmap with a dark top-left module: whenever Bitmap::path returns (model of
    bits_to_edge_graph, edge_left, the walk / euler / tours loops with the insert and alternatives bookkeeping,
    Jump between components, compress_path), the path is well-formed and its even-odd filling is exactly the set of
-   dark modules.  Partial correctness: the statement is about the paths that are returned; that the model's
-   expect() sites and fuel bounds are never hit is checked per input by the correspondence run, not proved. *)
+   dark modules.  (Stated for the paths that are returned; (v.c) below shows that a path always is returned.) *)
 Theorem C17_path_renders_dark : forall (l : list bool) (w : Z) (segs : list seg),
   let h := Z.of_nat (length l) / w in
   path l w = Ok segs -> dark (bits_map l) w h 0 0 = true ->
@@ -80,6 +79,28 @@ Theorem C17_compress_path : forall w h l, 0 <= w -> 0 <= h ->
   forall x y, count_at (edges (draw w h (compress_path l))) x y = kcount (medges (0, 0) l) x y.
 Proof. exact compress_ok. Qed.
 Print Assumptions C17_compress_path.
+
+(* (v.c) totality: for every bitmap whose length is a multiple of its width and whose sides fit the i16 coordinates of
+   the implementation, the model of Bitmap::path returns a path: every node of the outline graph has even degree, so
+   the walk always finds a continuation until it is back at its start (the expect() in `follow` is not reached), and
+   every iteration of walk, euler and tours removes an edge, so the loop bounds of the model are not reached *)
+Theorem C17_path_total : forall (l : list bool) (w : Z),
+  let h := Z.of_nat (length l) / w in
+  0 < w -> Z.of_nat (length l) mod w = 0 -> w + 1 <= 32767 -> h + 1 <= 32767 ->
+  exists segs, path l w = Ok segs.
+Proof. exact path_total. Qed.
+Print Assumptions C17_path_total.
+
+(* (v) and (v.c) together: the property for the model of the algorithm, every bitmap with a dark top-left module *)
+Theorem C17_path : forall (l : list bool) (w : Z),
+  let h := Z.of_nat (length l) / w in
+  0 < w -> Z.of_nat (length l) mod w = 0 -> w + 1 <= 32767 -> h + 1 <= 32767 -> dark (bits_map l) w h 0 0 = true ->
+  exists segs, path l w = Ok segs /\ wf_path w h segs = true /\
+    forall x y, 0 <= x < w -> 0 <= y < h -> inside w h segs x y = dark (bits_map l) w h y x.
+Proof.
+  intros l w h Hw HM LW LH D. destruct (path_total l w Hw HM LW LH) as [segs P]. exists segs. split; [exact P|]. exact (path_correct l w segs P D).
+Qed.
+Print Assumptions C17_path.
 
 (* (vi) the Unicode block rendering, for every bitmap: ceil((h+2)/2) lines of w + 2 block characters and a line
    feed; the character in line r, column j shows module (2r-1, j-1) in its upper half and module (2r, j-1) in its lower
